@@ -273,6 +273,30 @@ func runMarkov(env *Env, id string, c markovCase) {
 			}
 		}
 		ev.Sums = append(ev.Sums, []int{11, 18, 6}, []int{16, 14, 9})
+		// lengths between the ones above and the longest: 31, 50 and their sum (a shortcut taken "because the chain has
+		// converged by now" is wrong for slowly mixing parameters)
+		base := len(ev.Ts)
+		for _, t := range []float64{31, 50, 81} {
+			ev.Ts = append(ev.Ts, fstr(t))
+			pm, e := pmat(m, t)
+			if e != nil {
+				ev.Kind, ev.Msg = "err", e.Error()
+				return
+			}
+			ev.PM = append(ev.PM, pm)
+			if analytical {
+				pe, e := pmat(forceEigen{m}, t)
+				if e != nil {
+					ev.Kind, ev.Msg = "err", e.Error()
+					return
+				}
+				ev.Pe = append(ev.Pe, pe)
+			}
+		}
+		ev.Sums = append(ev.Sums, []int{base + 1, base + 2, base + 3})
+		if m.NState() <= 4 {
+			ev.Expm = append(ev.Expm, base+1, base+3, 10)
+		}
 		if m.NState() > 4 {
 			ev.Expm = append(ev.Expm, 16)
 		} else {
